@@ -86,7 +86,11 @@ func (values SortValues) Serialize(buf *bytes.Buffer) {
 		case FloatType:
 			serializeFloat(buf, value.Float64ToStr(val.Float, false))
 		case DatetimeType:
-			serializeDatetimeFromUnixNano(buf, val.Datetime)
+			if val.datetimeSec == 0 && val.datetimeNsec == 0 {
+				serializeDatetimeFromUnixNano(buf, val.Datetime)
+			} else {
+				serializeDatetimeFromUnix(buf, val.datetimeSec, val.datetimeNsec)
+			}
 		case StringType:
 			serializeString(buf, val.String)
 		}
